@@ -79,7 +79,13 @@ def malformed_nodes(rng, t, kind, j, index, same_as=None):
         return [{'p': ip, 't': 'f', 'c': '[Trash Info]\nPath=elsewhere/m%d\n' % j}, pay]
     if kind == 'invalid-date':
         return [{'p': ip, 't': 'f', 'c': '[Trash Info]\nPath=elsewhere/m%d\nDeletionDate=%s\n' % (
-            j, rng.choice(['yesterday', '2003-13-03T03:03:03', '', '2003-03-03']))}, pay]
+            j, rng.choice(['yesterday', '2003-13-03T03:03:03', '', '2003-03-03',
+                           # right punctuation, numbers no date field can hold
+                           '20010203040506-01-01T00:00:00', '2001-01-01T00:00:99999999999',
+                           '2147483648-01-01T00:00:00', '2001-4294967296-01T00:00:00',
+                           '0000-00-00T00:00:00', '2001-01-01T24:60:60',
+                           '9' * 5000 + '-01-01T00:00:00', '-001-01-01T00:00:00',
+                           '2001-01-01T00:00:00.5', '２００１-01-01T00:00:00']))}, pay]
     if kind == 'info-without-payload':
         return [{'p': ip, 't': 'f', 'c': good}]
     if kind == 'payload-without-info':
